@@ -34,8 +34,8 @@ const propID = "C19"
 func TestWorker(t *testing.T) {
 	simkit.WorkerMain(t, simkit.Options{
 		Engine: "v2sim",
-		Real:   []string{"v2transport.Peer", "v2transport/chacha.go (FSChaCha20, FSChaCha20Poly1305)", "btcec/ellswift"},
-		Stub:   []string{"byte stream between the endpoints (simstream: seeded chunking, delays, adversary)", "reference endpoint bip324ref as the other peer in modes M2/M3ref"},
+		Real:   []string{"v2transport.Peer", "v2transport/chacha.go (FSChaCha20, FSChaCha20Poly1305)", "btcec/ellswift", "peer.Peer on the v2 transport: negotiation, readMessage/writeMessage v2 branches, wire's v2 message framing (peerlink runs)"},
+		Stub:   []string{"byte stream between the endpoints (simstream: seeded chunking, delays, adversary)", "reference endpoint bip324ref as the other peer in modes M2/M3ref", "peerlink runs: the connection (simconn: torn writes, small reads, hang-up) and the remote node (bip324ref transport + the harness's own BIP324 message-id framing)"},
 		Setup: func(t *testing.T) {
 			// Anchor the reference implementation (and the secp256k1 code it
 			// borrows) on the published vectors.  Failure = harness error.
@@ -109,6 +109,11 @@ func run(r *simkit.Run) {
 	r.MarkEpoch()
 	if repoMathViolation != "" {
 		r.Violate(propID, "ellswift-ecdh-equals-bip324-vectors", "", "%s", repoMathViolation)
+	}
+	if r.C.Bool(150, "peerlink") {
+		// the peer's own use of the transport (peer/peer.go)
+		runPeerLink(r)
+		return
 	}
 	s := &sim{r: r, thorough: r.Tier == "thorough"}
 	s.poison = [2]int{-1, -1}
